@@ -522,8 +522,24 @@ def gen_c01(tape, tier):
     nhosts = tape.choice((1, 1, 2), 'site.nhosts')
     npages = tape.between(2, 10 if tier == 'thorough' else 8, 'site.npages')
     # (--no-parent from the top directory: the option must then change nothing)
+    # (with a depth limit and -p, framed documents are frequent: a frame is an embedded object AND a page whose links have a depth)
+    framed = opts.get('level') not in ('inf', None) and opts.get('page_requisites')
     site, starts, pages, assets, redirects = refsite.gen_site(tape, nhosts=nhosts, npages=npages,
-                                                             start_in_subdir=opts['no_parent'] and not tape.chance(1, 4, 'np.at_root'))
+                                                             start_in_subdir=opts['no_parent'] and not tape.chance(1, 4, 'np.at_root'),
+                                                             iframe_chance=(1, 3) if framed else (1, 8))
+    if framed and not opts['no_parent'] and tape.chance(1, 3, 'site.frame_diamond'):
+        # a page (t) reachable through a framed document of one page and, one step nearer, through a sibling of that page; behind
+        # it a chain, so that for every depth limit something lies exactly at the limit on the shorter path
+        o = starts[0].origin
+        gp, gq, gf, gt, g1, g2 = (site.add(o, '/g/%s.html' % n, 'page') for n in ('p', 'q', 'f', 't', 'c1', 'c2'))
+        gp.inlines.append((gf, gf.url, 'iframe'))
+        gf.links.append((gt, gt.url))
+        gq.links.append((gt, gt.url))
+        gt.links.append((g1, g1.url))
+        g1.links.append((g2, g2.url))
+        starts[0].links.append((gp, gp.url))
+        starts[0].links.append((gq, gq.url))
+        pages += [gp, gq, gf, gt, g1, g2]
     if tape.chance(1, 5, 'multi_start') and len(pages) > 2 and not opts['no_parent']:
         extra = pages[1 + tape.draw(len(pages) - 1, 'start.extra')]
         if extra.origin.key() == starts[0].origin.key() and extra not in starts:
@@ -604,7 +620,9 @@ def judge_c01(r, site, starts, opts, out, rows, concurrency):
                  if canon(x['url']) in ref_rows and x['level'] != ref_rows[canon(x['url'])]['level']]
     if deviating:
         r.probes['depth_race_possible'] += 1
-    race = bool(deviating) and opts.get('level') not in ('inf',)
+    # (C01-K2 is about the order in which concurrent answers arrive: with one worker the table fills breadth first and a recorded
+    # depth that differs from the shortest distance is no race)
+    race = bool(deviating) and opts.get('level') not in ('inf',) and concurrency > 1
     rowmap = {canon(x['url']): x for x in rows}
     dual = ({d.url for res in site.order for d, _ in res.links if not isinstance(d, str)} &
             {d.url for res in site.order for d, _, _ in res.inlines})
@@ -666,7 +684,7 @@ def gen_c02(tape, tier):
         opts['span_hosts_allow'] = ('linked-pages',)
     elif k == 4:
         opts['span_hosts_allow'] = ('page-requisites', 'linked-pages')
-    k = tape.draw(8, 'opt.hosts')
+    k = tape.draw(9, 'opt.hosts')
     if k == 1:
         opts['span_hosts'] = True
         opts['domains'] = ['site.test']
@@ -688,10 +706,23 @@ def gen_c02(tape, tier):
         opts['span_hosts'] = True
         opts['hostnames'] = ['site.test', 'other.test', 'third.test']
         opts['exclude_domains'] = ['third.test']
+    elif k == 8:
+        # the suffix form with a leading dot: sub-domains of a domain (a host 'www.other.test' is added to the site below)
+        opts['span_hosts'] = True
+        opts['exclude_domains'] = ['.other.test']
     elif k == 7:
         opts['span_hosts'] = True
         opts['domains'] = ['test']
         opts['exclude_hostnames'] = ['third.test', 'other.test'][:tape.between(1, 2, 'opt.hosts.nex')]
+    if tape.chance(1, 4, 'opt.hosts.typed'):
+        # the way a user may type such lists: upper case, a trailing comma (an empty item)
+        for key in ('domains', 'exclude_domains', 'hostnames', 'exclude_hostnames'):
+            if opts.get(key):
+                how = tape.draw(3, 'opt.hosts.typed.' + key)
+                if how == 0:
+                    opts[key] = [x.upper() for x in opts[key]]
+                elif how == 1:
+                    opts[key] = [x.capitalize() for x in opts[key]] + ['']
     if opts.get('span_hosts'):
         opts.pop('span_hosts_allow', None)      # mutually exclusive on the command line
     k = tape.draw(8, 'opt.dirs')
@@ -724,6 +755,11 @@ def gen_c02(tape, tier):
                                                              start_in_subdir=opts['no_parent'] and not np_root,
                                                              main_port=8080 if np_ports else None)
     main = site.origins[0]
+    if opts.get('exclude_domains') == ['.other.test']:
+        www = site.add_origin('http', 'www.other.test')
+        wp = site.add(www, '/w.html', 'page')
+        starts[0].links.append((wp, wp.url))
+        pages.append(wp)
     if np_ports:
         # the start host on a port of its own, and its https twin on another: links that change the scheme stay on the same
         # site and stay under the directory rule, whatever the ports are
@@ -834,6 +870,18 @@ def judge_c02(r, site, starts, opts, out, rows, own_hosts=None, phase=''):
         if rec is not None and rec.get('item_run') is not None and canon(e['url']) == canon(rec['url']):
             runs.setdefault(canon(rec['url']), set()).add(rec['item_run'])
     tries = opts.get('tries') or 20
+    # one try is one request for the item's own URL (these sites ask for no login, and no redirect leads back to its source)
+    per_run = {}
+    for e in server.log:
+        rec = e['rec']
+        if rec is not None and rec.get('item_run') is not None and canon(e['url']) == canon(rec['url']) and e['target'] != '/robots.txt':
+            per_run[(canon(rec['url']), rec['item_run'])] = per_run.get((canon(rec['url']), rec['item_run']), 0) + 1
+    for (u, run_no), n in per_run.items():
+        if n > 1:
+            r.violate(P, 'out-of-scope-request', 'first-request:tries:request-repeated-within-one-try' + (':resumed' if phase else ''),
+                      '%s was requested %d times within one try (item run %r): the retry limit counts tries, so the URL is requested more often than --tries %r allows%s'
+                      % (u, n, run_no, tries, phase))
+            break
     for u, ss in runs.items():
         if len(ss) > tries:
             r.violate(P, 'out-of-scope-request', 'first-request:tries:counted-by-item-runs' + (':resumed' if phase else ''),
@@ -982,6 +1030,10 @@ def run(tape, prop, tier):
             site, starts, opts, flaky = gen_c02(tape, tier)
         # (more workers than connections per host - 6 - make workers wait for one another's connections)
         concurrency = tape.choice((1, 2, 3, 4, 8, 12), 'concurrency')
+        if prop == 'C01' and opts.get('level') not in ('inf', None) and opts.get('page_requisites') and tape.chance(1, 2, 'concurrency.one'):
+            # depth limit and embedded documents with one worker: here the recorded depth of every URL is its shortest distance
+            # (no answer-order race, known finding C01-K2), so a URL cut off by the limit is a verdict
+            concurrency = 1
         dbpath = os.path.join(sandbox, 'db.sqlite')
         argv = argv_for(opts, [s.url for s in starts], dbpath)
         no_keepalive = tape.chance(1, 4, 'srv.no_keepalive')       # a server that closes after every response
@@ -1024,12 +1076,17 @@ def run(tape, prop, tier):
             for res, n in flaky:
                 state = {'left': n}
 
-                def beh(conn, entry, rs, state=state):
+                def beh(conn, entry, rs, state=state, how=tape.choice(('503', '503', 'drop'), 'site.flaky.how')):
                     if state['left'] > 0:
                         state['left'] -= 1
-                        r.faults['http_5xx'] += 1
                         r.probes['retry'] += 1
-                        server.send(conn, 503, 'Busy', [('Content-Type', 'text/plain')], b'busy')
+                        if how == 'drop':
+                            # the request is read, then the connection is dropped before a single byte of an answer
+                            r.faults['http_dropped_before_answer'] += 1
+                            conn.reset()
+                        else:
+                            r.faults['http_5xx'] += 1
+                            server.send(conn, 503, 'Busy', [('Content-Type', 'text/plain')], b'busy')
                     else:
                         server.respond_resource(conn, rs, entry)
                 server.behaviour[(res.origin.key(), res.target)] = beh
